@@ -2,44 +2,79 @@
 (* Trace validation of the real subscription registry (pubsub.go) against Subs.tla.  Hook events are emitted inside
    the registry's lock regions (subs.sub, subs.cancel, subs.unsub, subs.close.locked under the write lock;
    subs.pub.begin/send/end under the read lock, which only the single reader goroutine takes); the driver adds what a
-   Receive loop observes (Recv, RecvClosed, CtxDone, SubNil).  Silent: the channel send inside Publish (confirmed by
-   subs.pub.send afterwards), the start of the drainer goroutine and its receives.  Message ids are assigned at subs.pub.begin, so they are consecutive like the specification's. *)
+   Receive loop observes (Recv, RecvClosed, CtxDone, SubNil) and brackets every call of the reader (PubCall /
+   UnsubCall before the call; PubSkip / UnsubSkip after a call during which no hook fired, i.e. the lock-free fast
+   path was taken).  subs.sub carries the id the implementation gave the subscription, subs.cancel the id its cancel
+   function removes.
+
+   Silent: the channel send inside Publish (confirmed by subs.pub.send afterwards), the start of the drainer goroutine
+   and its receives, the decision to take the fast path (somewhere between PubCall and PubSkip: it is explained when at
+   that moment nobody was registered for the channel), and a receive whose Recv record is still to come although the
+   reader has already completed a send that needed the slot (the receiver was descheduled between `<-ch` and its log
+   line; `pre` remembers the message until the Recv record confirms it).
+   Message ids are assigned at subs.pub.begin, so they are consecutive like the specification's. *)
 EXTENDS MCSubs, Json, IOUtils
-VARIABLE l
+VARIABLES l,
+          rcall,   \* the reader's call in progress: [st |-> "none" | "calling" | "skipped", c |-> channel]
+          pre      \* subscriber -> message it has taken from its channel but not yet reported (0: none)
 TraceLog == ndJsonDeserialize(IOEnv.VERIF_TRACE)
 Ev == TraceLog[l]
 Is(e) == l <= Len(TraceLog) /\ TraceLog[l].ev = e
 Step == l' = l + 1
-TraceInit == Init /\ l = 1 /\ TLCSet(1, 1)
-Reset == /\ Is("RESET") /\ Step
-         /\ reg' = [c \in Chan |-> {}] /\ open' = TRUE /\ alive' = {}
+NoCall == [st |-> "none", c |-> ""]
+Keep == UNCHANGED <<rcall, pre>>
+TraceInit == Init /\ l = 1 /\ rcall = NoCall /\ pre = [s \in Sub |-> 0] /\ TLCSet(1, 1)
+Reset == /\ Is("RESET") /\ Step /\ rcall' = NoCall /\ pre' = [s \in Sub |-> 0]
+         /\ sub' = NoIds /\ reg' = [c \in Chan |-> NoIds] /\ cnt' = 0 /\ idOf' = [s \in Sub |-> 0] /\ open' = TRUE
          /\ buf' = [s \in Sub |-> <<>>] /\ chClosed' = [s \in Sub |-> FALSE] /\ closes' = [s \in Sub |-> 0]
          /\ rd' = 0 /\ wr' = 0
          /\ rpc' = "idle" /\ rmsg' = 0 /\ rchan' = (CHOOSE c \in Chan : TRUE) /\ rleft' = {}
          /\ spc' = [s \in Sub |-> "new"] /\ drain' = [s \in Sub |-> FALSE] /\ got' = [s \in Sub |-> <<>>]
          /\ nmsg' = 0 /\ nunsub' = 0 /\ nclose' = 0 /\ sent' = [s \in Sub |-> <<>>]
-\* the drainer empties the buffer (any number of receives in one silent step)
+\* Silent steps are taken just in time, i.e. only when the record at hand cannot be explained without them (delaying
+\* them changes nothing the invariants look at, and keeps the validation linear in the length of the trace):
+\*   - the reader's send to s, when s reports the message before the reader's own subs.pub.send line;
+\*   - a receive by s / by the drainer of s / the start of that drainer, when the reader reports a send to s although
+\*     s's buffer is full in the specification's state;
+\*   - the start of the drainer when subs.cancel arrives.
 DrainAll(s) == /\ drain[s] /\ buf[s] # <<>> /\ buf' = [buf EXCEPT ![s] = <<>>]
-               /\ UNCHANGED <<reg, open, alive, chClosed, closes, rd, wr, rpc, rmsg, rchan, rleft, spc, drain, got, nmsg, nunsub, nclose, sent>>
+               /\ UNCHANGED <<sub, reg, cnt, idOf, open, chClosed, closes, rd, wr, rpc, rmsg, rchan, rleft, spc, drain, got, nmsg, nunsub, nclose, sent>>
+PreRecv(s) == /\ pre[s] = 0 /\ pre' = [pre EXCEPT ![s] = Head(buf[s])] /\ RecvMsg(s)
+Full(s) == rpc = "pub" /\ s \in rleft /\ Len(buf[s]) = BufCap
+Silent ==
+  /\ UNCHANGED <<l, rcall>>
+  /\ \/ Is("Recv") /\ pre[Ev.s] = 0 /\ buf[Ev.s] = <<>> /\ rpc = "pub" /\ rmsg = Ev.m /\ PubSendTo(Ev.s) /\ UNCHANGED pre
+     \/ Is("subs.pub.send") /\ Full(Ev.s) /\ drain[Ev.s] /\ DrainAll(Ev.s) /\ UNCHANGED pre
+     \/ Is("subs.pub.send") /\ Full(Ev.s) /\ ~drain[Ev.s] /\ spc[Ev.s] = "cancel" /\ StartDrainer(Ev.s) /\ UNCHANGED pre
+     \/ Is("subs.pub.send") /\ Full(Ev.s) /\ ~drain[Ev.s] /\ spc[Ev.s] = "recv" /\ PreRecv(Ev.s)
+     \/ Is("subs.cancel") /\ spc[Ev.s] = "cancel" /\ StartDrainer(Ev.s) /\ UNCHANGED pre
 TraceNext ==
     \/ Reset
-    \/ Is("subs.sub") /\ Step /\ open /\ Subscribe(Ev.s)
-    \/ Is("SubNil") /\ Step /\ ~open /\ Subscribe(Ev.s)
-    \/ Is("Recv") /\ Step /\ buf[Ev.s] # <<>> /\ Head(buf[Ev.s]) = Ev.m /\ RecvMsg(Ev.s)
-    \/ Is("RecvClosed") /\ Step /\ RecvClosed(Ev.s)
-    \/ Is("CtxDone") /\ Step /\ CtxDone(Ev.s)
-    \/ Is("subs.cancel") /\ Step /\ CancelLocked(Ev.s)
-    \/ Is("subs.pub.begin") /\ Step /\ Ev.m = nmsg + 1 /\ PubBegin(Ev.c)
-    \* logged by the reader after its send completed; the receiver may have logged its Recv first, so the send itself
-    \* is a silent step and this line only confirms it
-    \/ Is("subs.pub.send") /\ Step /\ rpc = "pub" /\ Ev.s \notin rleft /\ Len(sent[Ev.s]) > 0
-           /\ sent[Ev.s][Len(sent[Ev.s])] = rmsg /\ UNCHANGED vars
-    \/ Is("subs.pub.end") /\ Step /\ PubEnd
-    \/ Is("subs.unsub") /\ Step /\ Unsub(Ev.c)
-    \/ Is("subs.close.locked") /\ Step /\ CloseLocked
-    \/ Is("subs.close.done") /\ Step /\ CloseChans
-    \/ (UNCHANGED l /\ (PubSend \/ \E s \in Sub : StartDrainer(s) \/ DrainAll(s)))
-TraceSpec == TraceInit /\ [][TraceNext]_<<vars, l>>
+    \/ Is("subs.sub") /\ Step /\ Keep /\ open /\ SubscribeWith(Ev.s, Ev.id)
+    \/ Is("SubNil") /\ Step /\ Keep /\ ~open /\ Subscribe(Ev.s)
+    \/ Is("Recv") /\ Step /\ UNCHANGED rcall
+          /\ IF pre[Ev.s] # 0
+             THEN pre[Ev.s] = Ev.m /\ pre' = [pre EXCEPT ![Ev.s] = 0] /\ UNCHANGED vars
+             ELSE buf[Ev.s] # <<>> /\ Head(buf[Ev.s]) = Ev.m /\ RecvMsg(Ev.s) /\ UNCHANGED pre
+    \/ Is("RecvClosed") /\ Step /\ Keep /\ pre[Ev.s] = 0 /\ RecvClosed(Ev.s)
+    \/ Is("CtxDone") /\ Step /\ Keep /\ pre[Ev.s] = 0 /\ CtxDone(Ev.s)
+    \/ Is("subs.cancel") /\ Step /\ Keep /\ Ev.id = idOf[Ev.s] /\ CancelLocked(Ev.s)
+    \* ---- the reader: every call is announced; it either reaches its lock region or reports that it took the fast path
+    \/ (Is("PubCall") \/ Is("UnsubCall")) /\ Step /\ rcall.st = "none" /\ rcall' = [st |-> "calling", c |-> Ev.c] /\ UNCHANGED <<vars, pre>>
+    \/ UNCHANGED <<l, vars, pre>> /\ rcall.st = "calling" /\ RegEmpty(rcall.c) /\ rcall' = [rcall EXCEPT !.st = "skipped"]
+    \/ (Is("PubSkip") \/ Is("UnsubSkip")) /\ Step /\ rcall.st = "skipped" /\ rcall' = NoCall /\ UNCHANGED <<vars, pre>>
+    \/ Is("subs.pub.begin") /\ Step /\ rcall.st = "calling" /\ rcall.c = Ev.c /\ rcall' = NoCall /\ UNCHANGED pre
+          /\ Ev.m = nmsg + 1 /\ PubBegin(Ev.c)
+    \* logged by the reader after its send completed: the send happens here, unless the receiver's Recv line came first
+    \/ Is("subs.pub.send") /\ Step /\ Keep /\ rpc = "pub"
+          /\ IF Ev.s \in rleft THEN PubSendTo(Ev.s)
+             ELSE Len(sent[Ev.s]) > 0 /\ sent[Ev.s][Len(sent[Ev.s])] = rmsg /\ UNCHANGED vars
+    \/ Is("subs.pub.end") /\ Step /\ Keep /\ PubEnd
+    \/ Is("subs.unsub") /\ Step /\ rcall.st = "calling" /\ rcall.c = Ev.c /\ rcall' = NoCall /\ UNCHANGED pre /\ Unsub(Ev.c)
+    \/ Is("subs.close.locked") /\ Step /\ Keep /\ CloseLocked
+    \/ Is("subs.close.done") /\ Step /\ Keep /\ CloseChans
+    \/ Silent
+TraceSpec == TraceInit /\ [][TraceNext]_<<vars, l, rcall, pre>>
 HighWater == TLCSet(1, IF l > TLCGet(1) THEN l ELSE TLCGet(1))
 TraceAccepted == \/ TLCGet(1) = Len(TraceLog) + 1
                  \/ PrintT(<<"REJECTED-AT", TLCGet(1), TraceLog[TLCGet(1)]>>) /\ FALSE
